@@ -131,6 +131,48 @@ theorem ensureInputs_present (l : List Nat) : ∀ (e : Env), Coh e →
       · exact h2.mono _ (statFile_cached e _)
       · exact h3 x hx
 
+/-- `stat_all_outputs` only grows the (truthful) cache, and afterwards holds every output. -/
+theorem statAllOutputs_grew (outs : List Nat) (e : Env) (hc : Coh e) :
+    Grew e (statAllOutputs e outs).2 ∧ ∀ f ∈ outs, Cached (statAllOutputs e outs).2 f := by
+  unfold statAllOutputs
+  have key : ∀ (l : List Nat) (acc : Option Nat × Env), Grew e acc.2 →
+      Grew e (l.foldl (fun (acc : Option Nat × Env) o =>
+        let (m, e') := statFile acc.2 o
+        (if m.isNone && acc.1.isNone then some o else acc.1, e')) acc).2 ∧
+      ∀ f, (f ∈ l ∨ Cached acc.2 f) → Cached (l.foldl (fun (acc : Option Nat × Env) o =>
+        let (m, e') := statFile acc.2 o
+        (if m.isNone && acc.1.isNone then some o else acc.1, e')) acc).2 f := by
+    intro l
+    induction l with
+    | nil => intro acc h2; exact ⟨h2, fun f hf => by rcases hf with hf | hf; cases hf; exact hf⟩
+    | cons o l ih =>
+      intro acc h2
+      simp only [List.foldl_cons]
+      have g1 := statFile_grew acc.2 o h2.coh
+      obtain ⟨r2, r3⟩ := ih ((if (statFile acc.2 o).1.isNone && acc.1.isNone then some o else acc.1), (statFile acc.2 o).2)
+        (h2.trans g1)
+      refine ⟨r2, ?_⟩
+      intro f hf
+      apply r3
+      rcases hf with hf | hf
+      · rcases List.mem_cons.mp hf with rfl | hf
+        · exact Or.inr (statFile_cached _ _)
+        · exact Or.inl hf
+      · exact Or.inr (g1.mono f hf)
+  obtain ⟨b, c⟩ := key outs (none, e) (Grew.refl hc)
+  exact ⟨b, fun f hf => c f (Or.inl hf)⟩
+
+/-- A phony step is never dirty; checking it stat()s its outputs. -/
+theorem checkDirty_phony (e : Env) (b : Nat) (bm : BuildM) (hb : buildOf e.g b = some bm) (hc : Coh e)
+    (hph : bm.cmdline.isNone = true) :
+    (checkDirty e b).1 = some false ∧ Grew e (checkDirty e b).2 ∧ ∀ f ∈ bm.outs, Cached (checkDirty e b).2 f := by
+  unfold checkDirty
+  rw [hb]
+  simp only []
+  rw [if_pos hph]
+  obtain ⟨g1, c1⟩ := statAllOutputs_grew bm.outs e hc
+  exact ⟨rfl, g1, c1⟩
+
 /-- `stat_all_outputs` over outputs that all exist. -/
 theorem statAllOutputs_present (outs : List Nat) (e : Env) (hc : Coh e)
     (hp : ∀ f ∈ outs, (mtimeOf e f).isSome = true) :
@@ -223,14 +265,12 @@ theorem checkDirty_upToDate (e : Env) (b : Nat) (bm : BuildM) (hb : buildOf e.g 
     (hgen : ∀ f ∈ bm.dirtying ++ discOf e b, (fileInput e.g f).isSome = true → Cached e f) :
     (checkDirty e b).1 = some false ∧ Grew e (checkDirty e b).2 ∧
     ∀ f ∈ bm.outs, Cached (checkDirty e b).2 f := by
-  unfold checkDirty
-  rw [hb]
-  simp only []
   by_cases hph : bm.cmdline.isNone = true
-  · rw [if_pos hph]
-    obtain ⟨_, g1, c1⟩ := statAllOutputs_present bm.outs e hc (fun f hf => u.present f (by simp [hf]))
-    exact ⟨rfl, g1, c1⟩
-  · rw [if_neg hph]
+  · exact checkDirty_phony e b bm hb hc hph
+  · unfold checkDirty
+    rw [hb]
+    simp only []
+    rw [if_neg hph]
     -- the three stat rounds of `check_build_files_missing`
     obtain ⟨e1, h1, g1, c1⟩ := ensureInputs_present bm.dirtying e hc
       (fun f hf => u.present f (by simp [hf])) (fun f hf => hgen f (by simp [hf]))
